@@ -560,6 +560,20 @@ def runStdin (F : Fmt) (D : Dif) (f : Flags) (e : Entry) : Out :=
   if startupError f then { stderr := [startupMsg], status := 1 } else
   collect [(e, .step (stdinStep F D f e))] {}
 
+/-! ## vocabulary of the property statements -/
+
+/-- Formatter idempotence under fixed options (property C02), as a hypothesis. -/
+def Idempotent (F : Fmt) : Prop := ∀ o p s r, F o p s = .ok r → F o p r = .ok r
+
+/-- The formatted bytes do not depend on the file name (it only appears in error positions). -/
+def NameIndependent (F : Fmt) : Prop := ∀ o p p' s r, F o p s = .ok r → F o p' s = .ok r
+
+/-- The same command line with `-l` instead of `-w`/`-d`. -/
+def lFlags (f : Flags) : Flags := { f with list := .nl, write := false, diff := false }
+
+/-- The file's bytes after a step. -/
+def contentAfter (s : Step) (src : Bytes) : Bytes := s.write.getD src
+
 /-! ## diff model: edit scripts over lines -/
 
 /-- One hunk: it applies at 0-based line `pos` of the *old* file; `del` are the old lines it
